@@ -8,7 +8,7 @@ COQ_IMPORTS = ['Prims', 'CaseLib', 'BitsCore', 'Search', 'Store']
 RULE = ('pairs and triples over (class, content, length incl. 1999/2000/2001/3601/8193, route, pos); equal contents, single-bit differences at the start, middle (outside the hashed ends) '
         'and end; promotable right operands (str, bytes, list, bitarray) and non-promotable ones (int, float, None, object, dict); hash input captured at run time and compared with the model; '
         'non-trivial = both sides non-empty; distinct by arguments')
-ASSUMPTIONS = ['hash() of a tuple is a function of the tuple (only congruence is used)', 'file-backed routes are exercised by C08']
+ASSUMPTIONS = ['hash() of a tuple is a function of the tuple (only congruence is used)']
 
 def gen_cases(rng, tier):
     N = 300 if tier == 'quick' else 4000
@@ -27,6 +27,15 @@ def gen_cases(rng, tier):
         if other == 'bytes': b = b[:len(b) - len(b) % 8]
         yield {'op': 'pair', 'ca': rng.choice(CLASSES), 'a': a, 'ra': rng.choice(ROUTES), 'pa': rng.choice([None, 0, n // 2, n]),
                'other': other, 'b': b, 'rb': rng.choice(ROUTES), 'pb': rng.choice([None, 0])}
+    # same zero-padded bytes, different lengths: == must compare lengths whatever store either side has (memory-mapped file, slice, copy...)
+    for _ in range(60 if tier == 'quick' else 800):
+        n = 8 * rng.choice([1, 2, 3, 8, 250, 251])
+        j = rng.randrange(1, 8)
+        a = rand_bits(rng, n - j, 'rand') + '0' * j
+        b = a[:n - rng.randrange(1, j + 1)]
+        if rng.random() < 0.5: a, b = b, a
+        yield {'op': 'pair', 'ca': rng.choice(CLASSES), 'a': a, 'ra': rng.choice(['file_exact', 'file_exact', 'file', 'bytes', 'slice']), 'pa': None,
+               'other': rng.choice(CLASSES), 'b': b, 'rb': rng.choice(['file_exact', 'file_exact', 'file', 'bin', 'copy']), 'pb': None}
     for _ in range(40 if tier == 'quick' else 600):
         n = rng.choice([0, 5, 64, 2001, 3000])
         a = rand_bits(rng, n)
